@@ -58,6 +58,7 @@ impl<'t> Lock<'t> {
     }
     pub fn viol(&mut self, class: &str, msg: String) {
         if self.viols.len() < 12 {
+            sim::runner::early_violation(class, self.cur_op, &msg);
             self.viols.push(Violation { class: class.into(), op_index: self.cur_op, msg });
         }
     }
